@@ -13,8 +13,8 @@ from fvc.units import unit
 from .dimensions import operand_pairs, ALPHA, NEW, _rank
 
 
-def mk_dims(W, letters, lo=1):
-    return {l: W.dim(l, lo=lo) for l in letters}
+def mk_dims(W, letters, lo=1, numeric_ok=False):
+    return {l: W.dim(l, lo=lo, numeric_ok=numeric_ok) for l in letters}
 
 
 def operands(W, sk, int_ok=False):
@@ -518,7 +518,7 @@ def sk_cumsum(tier):
     skeletons=sk_cumsum,
 )
 def u_cumsum(W, sk):
-    D = mk_dims(W, sk["x"])
+    D = mk_dims(W, sk["x"], numeric_ok=True)
     x = W.array("x", [D[l] for l in sk["x"]], int_ok=True)
     X = SL.lab(W, x)
     fz = SL.Lab(W, X.letters, X.dims, (lambda vals, L: (lambda asg: W.elem(vals, tuple(asg[l] for l in L))))(x.values.copy(), X.letters))
@@ -604,6 +604,9 @@ def sk_ctor(tier):
             if case == "ndarray_rank-1" and k == 0:
                 continue
             out.append({"x": ALPHA[:k], "case": case})
+        if k >= 1:
+            out.append({"x": ALPHA[:k], "case": "repeated_letter_by_subset"})
+            out.append({"x": ALPHA[:k], "case": "repeated_letter_by_expand"})
     return out
 
 
@@ -638,6 +641,30 @@ def u_ctor(W, sk):
     elif case == "bad_type":
         out = W.call(lambda: FlodymArray(dims=S, values="abc"))
         accepted = False
+    elif case in ("repeated_letter_by_subset", "repeated_letter_by_expand"):
+        # a dimension set in which one letter occurs twice (reached without the set's own constructor: a subset
+        # request that names a dimension twice -- by letter and by name --, or an in-place extension by two
+        # dimensions that share a letter): either that step refuses, or no array can be built over the set
+        l0 = sk["x"][-1]
+        if case == "repeated_letter_by_subset":
+            keys = tuple(sk["x"]) + (D[l0].name,)
+            bad = W.call(lambda: S.get_subset(keys))
+            bad_set = bad.value if bad.kind == "return" else None
+        else:
+            t1, t2 = W.dim("z", name="Twin1", tag="z_1"), W.dim("z", name="Twin2", tag="z_2")
+            bad_set = mk_set(W, dims)
+            bad = W.call(lambda: bad_set.expand_by([t1, t2], inplace=True))
+        if bad.kind == "raise":
+            SL.check_raises(W, f"ctor[{case}].set_refused", bad, (ValueError, KeyError))
+            return
+        letters = list(bad_set.letters)
+        if len(set(letters)) == len(letters):
+            return  # (the step removed the repetition: nothing ill-formed to build on)
+        out = W.call(lambda: FlodymArray(dims=bad_set))
+        SL.check_raises(W, f"ctor[{case}]", out, ValueError)
+        out2 = W.call(lambda: FlodymArray(dims=bad_set, values=W.ndarray("v", [W.size_of(d) for d in bad_set.dim_list])))
+        SL.check_raises(W, f"ctor[{case}](values of the listed lengths)", out2, ValueError)
+        return
     else:
         if case == "ndarray_same":
             shape = list(own)
